@@ -1215,6 +1215,28 @@ def glyf_derived_fields_recomputed(tier, rnd):
             f["glyf"].padding = padding
             _, T, _, _, P = read_sfnt(save_bytes(f, None, True))
             report(r, "%s (decompiled, padding %d)" % (os.path.basename(p), padding), P + check_glyf_derived(T, padding=padding))
+    # a font READ BACK lazily (glyphs still packed as raw data): stored wrong boxes are repaired on save, and
+    # a composite left untouched still gets the box of its EDITED base
+    for i in range(24 if tier == "quick" else 300):
+        f = gen_glyf_font(rnd, mono_tail=i % 3, nsimple=rnd.randint(4, 7))
+        f.recalcBBoxes = False
+        wrong = save_bytes(f, None, True)            # every stored box is the generator's deliberately wrong one
+        lazy = (None, True, False)[i % 3]
+        g = TTFont(io.BytesIO(wrong), lazy=lazy, recalcTimestamp=False)
+        edit = i % 2
+        r.case(("reloaded", lazy, edit))
+        for tag in ("head", "maxp", "hhea", "vhea", "hmtx", "vmtx", "loca", "glyf"):
+            if tag in g:
+                g[tag]                                # a table that is never loaded is copied, not recomputed
+        if edit:
+            glyf = g["glyf"]
+            used = {c.glyphName for n in glyf.keys() if glyf[n].isComposite() for c in glyf[n].components}
+            simple_bases = [n for n in sorted(used) if glyf[n].numberOfContours > 0]
+            if simple_bases:
+                base = glyf[rnd.choice(simple_bases)]
+                base.coordinates.translate((rnd.randint(-900, 900), rnd.randint(-900, 900)))
+        _, T, _, _, P = read_sfnt(save_bytes(g, None, True))
+        report(r, "generated glyf font #%d reloaded (lazy=%s, base edited=%d)" % (i, lazy, edit), P + check_glyf_derived(T, padding=None))
     # recalcBBoxes=False: nothing recomputed, stored (deliberately wrong) values survive
     for i in range(6 if tier == "quick" else 40):
         f = gen_glyf_font(rnd, mono_tail=i % 3)
